@@ -8,7 +8,9 @@ RULE = ("tt/ttbig: bundled TrueType fonts (Roboto, DejaVu Sans / ExtraLight (sho
         "greekcyr / any / unmapped_mix) plus large sets around the 50 % glyph-ratio test, through subset_font; an independent sfnt reader "
         "extracts glyph records and metrics of the original (reachable part) and of every glyph of the subset; Coq compares flattened outline "
         "and advance per requested character (property) and kept set, renumbering, glyph records, metrics and mapping with the model. "
-        "cff: SourceSans3 x random sets; charstring (subroutines inlined) and width entries per requested character. "
+        "generated fonts include composites-first orders (every component reference points forward) with identity-prefix character sets. "
+        "cff: SourceSans3 x random sets plus sets searched so that the kept charstrings total 254/255/256 and 65535/65536 bytes (INDEX offSize "
+        "boundaries); charstring (subroutines inlined) and width entries per requested character; every rebuilt INDEX judged by cff_index_ok. "
         "non-trivial = a real subset (not the full font) containing at least one composite glyph / a CFF subset; distinct by case text")
 
 
@@ -42,7 +44,7 @@ def run(r):
     r.rule = RULE
     r.assumptions = ["the harness sfnt reader (harness/src/c12_sfnt.rs) extracts glyph records, metrics and cmap faithfully from font bytes "
                      "(it is the bridge between bytes and the abstract font; the byte encoding itself is not proved)",
-                     "simple-glyph outlines of sets with more than 24 reachable glyphs travel as 64-bit digests",
+                     "simple-glyph outlines of sets with more than 10 reachable glyphs travel as 64-bit digests",
                      "CFF: the library's desubroutinize is trusted to inline the ORIGINAL charstring; CID-keyed CFF input is not exercised "
                      "(SourceHanSansSC-Regular.otf is an empty file in this sandbox)",
                      "needed/num_glyphs > 0.5 in f32 equals 2*needed > num_glyphs for 16-bit counts"]
